@@ -845,7 +845,14 @@ func writeBufYAMLFile(writer io.Writer, bufYAMLFile BufYAMLFile) error {
 				externalBufYAMLFile.Modules[i].Breaking = externalBufYAMLFileBreakingV1Beta1V1V2{}
 			}
 		}
-		if len(externalBufYAMLFile.Modules) == 1 && externalBufYAMLFile.Modules[0].Path == "." && len(externalBufYAMLFile.Modules[0].Excludes) == 0 {
+		if len(externalBufYAMLFile.Modules) == 1 &&
+			externalBufYAMLFile.Modules[0].Path == "." &&
+			len(externalBufYAMLFile.Modules[0].Includes) == 0 &&
+			len(externalBufYAMLFile.Modules[0].Excludes) == 0 {
+			// A single module at "." that has neither includes nor excludes is written in the
+			// short form without a modules key. Includes and excludes can only be expressed on
+			// a module, so a module that has either must be kept.
+			//
 			// We know that lint and breaking will already be top-level from the above if statement.
 			externalBufYAMLFile.Name = externalBufYAMLFile.Modules[0].Name
 			externalBufYAMLFile.Modules = []externalBufYAMLFileModuleV2{}
